@@ -401,6 +401,40 @@ CLAIMED['C14'] = dict(
          'must be its projected image.',
     note='TTL-free collections in the find_one_and_* theorems (hn); positional $ paths unmodelled.')
 
+CLAIMED['C04'] = dict(
+    technique='Lean 4 theorems about the model of the expression evaluator (aggregate.py _Parser) '
+              'and of $expr in the matcher: model = oracle on a decidable domain D, plus '
+              'operator laws for all inputs; tied to the code by type-directed differential '
+              'evaluation through $project, $addFields and find({$expr})',
+    text='Lean 4 theorems about MongoModel/Expr.lean (a mutual structural evaluator following '
+         '_Parser.parse\'s dispatch order; exact integer / dyadic arithmetic) against Spec/Expr.lean '
+         '(the value MongoDB defines) on the domain D = Spec/ExprDomain.lean (exclusion classes '
+         'as named reasons): eval_eq_spec_partial (for every expression tree of any depth and '
+         'every document in D the code\'s value is the oracle\'s) and expr_filter_eq_spec_partial '
+         '(the same for $expr in a filter); the full statements are refuted by kernel-checked '
+         'witnesses that are known findings. For all inputs: $literal is the identity; '
+         'truthiness is MongoDB\'s (false, null, 0 only); $not/$and/$or, $cond (both forms), '
+         '$ifNull (null or missing skipped, last operand is the fallback), $switch (first truthy '
+         'case, else default); null/missing propagates through unary, binary and n-ary '
+         'arithmetic; $lt/$gt/$lte/$gte are the four readings of the BSON comparison and exactly '
+         'one of $lt/$eq/$gt holds off the bool/number clash; a missing value is omitted from '
+         '$project/$addFields and from computed documents; $let/$map/$filter evaluate under the '
+         'extended bindings, $filter returns a sublist; $concatArrays, $size, $in, $setUnion '
+         '(sound, complete, duplicate-free), $concat; civil-date round trip for every integer '
+         'day number, date parts in range, instant recomposed from its parts. Tie: expressions '
+         'from a type-directed generator (depth <= 5, fields present / null / missing, nested '
+         'documents and arrays, one case in ten anomalous) are evaluated on /repo through '
+         '$project, $addFields and the per-document matcher and on the compiled model; values '
+         'and error classes must agree exactly; in D the value is also compared with the oracle; '
+         'find({$expr: e}) must equal the per-document matcher and $project must equal $addFields.',
+    note='Theorem fragment: paths and variables, constant arrays, document literals, $literal, ten '
+         'arithmetic operators, six comparisons, $not $and $or, $cond, $ifNull, $switch, $let, $map, '
+         '$filter, $size, $concatArrays, $concat, $arrayElemAt, $isArray, $isNumber, ten date parts; '
+         '$cmp $toLower $toUpper $strcasecmp $toString $in are in the oracle and cross-checked at '
+         'run time but outside the theorem (reason unproved:<op>); set / accumulator / string '
+         'slicing / math operators are modelled (correspondence) without oracle. 21 known findings '
+         '(see known_findings.json), each with a witness replayed on every run.')
+
 PENDING = {
     'C02': 'model (MongoModel/Update.lean) and correspondence exist; theorems not yet proved',
     'C03': 'in progress: pipeline model depends on the expression model (C04)',
